@@ -407,7 +407,7 @@ static void exec(const std::string &line) {
   if (w[0] == "expect" && w.size() == 3) {
     unsigned long pgn = strtoul(w[1].c_str(), 0, 10); std::vector<unsigned char> pl = unhex(w[2]); int hits = 0;
     for (auto &d : N->allTp) if (d.pgn == pgn && d.len == (int)pl.size() && d.data == pl) hits++;
-    if (hits != 1) C.fail(pl.size() == 223 ? "C10:rx-223" : "C10:e2e-delivery", "node %d delivered the %zu-byte TP message of PGN %lu %d times (expected once)", cur, pl.size(), pgn, hits);
+    if (hits != 1) C.fail(pl.size() == 223 && hits == 0 ? "C10:rx-223" : "C10:e2e-delivery", "node %d delivered the %zu-byte TP message of PGN %lu %d times (expected once)", cur, pl.size(), pgn, hits);
     C.out("%d", hits); return;
   }
   if (w[0] == "addr" && w.size() == 3) {
@@ -643,7 +643,7 @@ static void generate(Rng &R, const char *fl) {
     T(R.below(15));
   }
   // (4) single faults, both roles; after every faulty transfer the clock passes the timeouts and a clean transfer must work
-  int nf = tierN(250, 2500);
+  int nf = tierN(250, 5000);
   for (int i = 0; i < nf; i++) {
     resetNode(R, fl, "reset", (int)R.range(1, 2), (int)R.range(1, 5), R.chance(1, 2) ? 1 : 2, R.chance(1, 8) ? 4 : 40);
     int dev = (int)R.below(M[0].nDev); unsigned me = nodeAddr(0, dev);
@@ -690,7 +690,7 @@ static void generate(Rng &R, const char *fl) {
   C.count("exhaustive_fault_positions", 1);
   C.sample("exhaustive: every fault kind (drop/dup/reorder of RTS, CTS, DT, ACK; abort; silence; late; hold; foreign control) at every packet position of 16/30/50-byte transfers, both roles, each followed by a clean transfer after 1.3 s");
   // (5) concurrent sessions: several sources towards the node, the node's own transfers, fast-packet traffic, small slot counts
-  int nc = tierN(40, 400);
+  int nc = tierN(40, 1500);
   for (int i = 0; i < nc; i++) {
     int nslots = (int)R.range(2, 6); resetNode(R, fl, "reset", (int)R.range(1, 3), nslots, R.chance(1, 2) ? 1 : 2, 40);
     struct S { unsigned from, to; unsigned long pgn; std::vector<unsigned char> pl; int next; int window, inWin; bool dead; };
@@ -716,13 +716,13 @@ static void generate(Rng &R, const char *fl) {
     X("st");
   }
   // (6) two real nodes back to back over a loss-free in-order channel
-  int n2 = tierN(40, 400);
+  int n2 = tierN(40, 1200);
   for (int i = 0; i < n2; i++) {
     resetNode(R, fl, "reset", 1, 5, R.chance(1, 2) ? 1 : 2, 40); resetNode(R, fl, "reset2", 1, (int)R.range(1, 5), R.chance(1, 2) ? 1 : 2, 40);
     int ntr = (int)R.range(1, 3);
     for (int tr = 0; tr < ntr; tr++) {
       int from = (int)R.below(2), to = 1 - from; bool bam = R.chance(1, 3);
-      int len = R.chance(1, 6) ? 223 : (int)R.range(9, 223); std::vector<unsigned char> pl = payload(R, len); unsigned long pgn = R.chance(1, 2) ? TP_PGNS[(i + tr) % 5] : pickRtsPgn(R);
+      int len = R.chance(1, 6) ? 223 : (int)R.range(9, 223); std::vector<unsigned char> pl = payload(R, len); pl[0] = (unsigned char)tr; pl[1] = (unsigned char)(0xA0 + tr); unsigned long pgn = R.chance(1, 2) ? TP_PGNS[(i + tr) % 5] : pickRtsPgn(R);
       X("node " + std::to_string(from)); sendTP(0, pgn, bam ? 255 : nodeAddr(to, 0), pl);
       if (!lastRet) continue;
       bam = seenCM(nodeAddr(from, 0), 255, 32) != nullptr;   // a PGN without destination goes out as BAM
@@ -739,7 +739,7 @@ static void generate(Rng &R, const char *fl) {
     }
   }
   // (7) malformed / hostile transport frames (correspondence + sanitizers; the monitor is lenient here)
-  int nm = tierN(30, 300);
+  int nm = tierN(30, 1500);
   for (int i = 0; i < nm; i++) {
     resetNode(R, fl, "reset", (int)R.range(1, 2), (int)R.range(1, 4), (int)R.below(5), R.chance(1, 3) ? 3 : 40, R.chance(1, 4));
     unsigned me = nodeAddr(0, 0);
